@@ -4,6 +4,7 @@ import (
 	"fmt"
 	"go/types"
 	"os"
+	"regexp"
 	"runtime/debug"
 	"sort"
 	"strings"
@@ -35,6 +36,7 @@ type Explorer struct {
 	Bounds      map[string]int64
 	Deadline    time.Time
 	MaxUnknown  int
+	Fixed       map[string]string // input name#k -> SMT literal (debugging)
 
 	mu          sync.Mutex
 	work        [][]int
@@ -297,6 +299,11 @@ func (i *interpreter) solveMode(full bool, extra []string, vals []string) queryR
 	q := i.path.queryText(full, extra...)
 	hasStr := i.path.usesStr || strings.Contains(q, "String") || strings.Contains(q, "str.")
 	r := i.ex.Hub.solve(i.ss, q, vals, hasStr)
+	if r.res != "sat" && r.res != "unsat" && strings.Contains(q, "(str.to_int |") {
+		if hr, ok := i.toIntHint(q, vals); ok {
+			r = hr
+		}
+	}
 	if r.res != "sat" && r.res != "unsat" {
 		i.path.unknowns++
 		if i.path.unknowns > i.ex.MaxUnknown && !i.path.ending {
@@ -598,4 +605,50 @@ func debugf(format string, args ...interface{}) {
 	if os.Getenv("GOSMT_DEBUG") != "" {
 		fmt.Fprintf(os.Stderr, format+"\n", args...)
 	}
+}
+
+var toIntVarRe = regexp.MustCompile(`\(str\.to_int (\|[^|]+\|)\)`)
+
+// toIntHint: model search for queries that mix str.to_int of an input with
+// wrap-around arithmetic (out of reach of the string solvers as one query):
+// (1) replace str.to_int(X) by an integer unknown and let the solver pick it,
+// (2) fix X to the decimal rendering of that value and re-solve the original
+// query. Only a "sat" of step 2 is used, so the hint cannot create false results.
+func (i *interpreter) toIntHint(q string, vals []string) (queryResult, bool) {
+	vars := map[string]string{}
+	for _, m := range toIntVarRe.FindAllStringSubmatch(q, -1) {
+		vars[m[1]] = "|toint!" + strings.Trim(m[1], "|") + "|"
+	}
+	if len(vars) == 0 || len(vars) > 3 {
+		return queryResult{}, false
+	}
+	abs := q
+	var decl, names []string
+	for x, n := range vars {
+		abs = strings.ReplaceAll(abs, "(str.to_int "+x+")", n)
+		decl = append(decl, "(declare-const "+n+" Int)\n(assert (>= "+n+" 0))\n")
+		names = append(names, n)
+	}
+	abs = strings.Join(decl, "") + abs
+	r1 := i.ex.Hub.solve(i.ss, abs, names, true)
+	if r1.res != "sat" {
+		return queryResult{}, false
+	}
+	fixed := q
+	for x, n := range vars {
+		v, ok := r1.model[strings.Trim(n, "|")]
+		if !ok {
+			return queryResult{}, false
+		}
+		dec, ok := decodeSMTInt(v)
+		if !ok || strings.HasPrefix(dec, "-") {
+			return queryResult{}, false
+		}
+		fixed += "(assert (= " + x + " \"" + dec + "\"))\n"
+	}
+	r2 := i.ex.Hub.solve(i.ss, fixed, vals, true)
+	if r2.res == "sat" {
+		return r2, true
+	}
+	return queryResult{}, false
 }
